@@ -5,7 +5,7 @@
   `fit_bspline` sizes), SmoothModel/Dubins.lean, SmoothModel/Reparam.lean; executable at Float and
   tied to the running implementation by tools/props/c14.py (tables and rows bit for bit / to
   rounding, Dubins word and lengths bit for bit, B-spline sizes, reparameterisation bookkeeping
-  with the implementation's own LP results).  Helper lemmas: SmoothProofs/C14{Rows,Bern,Mean,Glue,Scan}.lean
+  with the implementation's own LP results).  Helper lemmas: SmoothProofs/C14{Rows,Bern,Mean,Glue,Scan,Kkt,Gram,Dubins,DubinsCcc,Global}.lean
   (`C14.seg`, `C14.P`, `C14.Q` — the segment polynomials — are defined in C14Mean.lean).
 
   Parameters of the model (contract audited by the check, not proved): the sparse solves
@@ -36,6 +36,8 @@ import SmoothProofs.C14Scan
 import SmoothProofs.C14Kkt
 import SmoothProofs.C14Dubins
 import SmoothProofs.C14Global
+import SmoothProofs.C14Gram
+import SmoothProofs.C14DubinsCcc
 import Mathlib.Tactic.NormNum
 
 open Polynomial Scalar Lin
@@ -187,13 +189,53 @@ theorem cost_block_posdef {n : Type} [Fintype n] [DecidableEq n] (M B : Matrix n
   refine ⟨Fit.Kkt.reg_symm _ ?_ fac ε, fun d hd => Fit.Kkt.quad_reg_pos _ (Fit.Kkt.congr_psd M B hM) fac ε hfac hε d hd⟩
   rw [Matrix.transpose_mul, Matrix.transpose_mul, Matrix.transpose_transpose, hMs, Matrix.mul_assoc]
 
-/-- what is still NOT proved here: that `monomial_integral<K,O>` is the Gram matrix of the `O`-th
-    derivatives of the monomials on `[0,1]` (hence positive semidefinite; C20's domain), and the
-    identification of the triplet list `kktEntries` with the block matrix `[Q Aᵀ; A 0]` of
-    `kkt_minimiser` (the check ties the assembled matrix to the running code by solving it exactly) -/
+/-- **monomial_integral_gram**: `monomial_integral<K,O>()[i][j]` is the `L²[0,1]` inner product of
+    the `O`-th derivatives of the monomials `xⁱ`, `xʲ` — for every `K`, every `O` (for `i < O` or
+    `j < O` the derivative vanishes and the code writes 0; for `O > K` the whole matrix is 0) -/
+theorem monomial_integral_gram (K O : ℕ) (i j : Fin (K + 1)) :
+    (Fit.monoIntegral (α := ℝ) K O) i j =
+      ∫ x in (0 : ℝ)..1, (derivative^[O] (X ^ i.val : ℝ[X])).eval x * (derivative^[O] (X ^ j.val : ℝ[X])).eval x :=
+  Fit.monoIntegral_gram K O i j
+
+/-- … in closed form: `c_i c_j / (i + j − 2O + 1)` with `c_i = i!/(i−O)!`, zero unless `i, j ≥ O` -/
+theorem monomial_integral_entries (K O : ℕ) (i j : Fin (K + 1)) :
+    (Fit.monoIntegral (α := ℝ) K O) i j =
+      if O ≤ i.val ∧ O ≤ j.val then
+        ((i.val.descFactorial O * j.val.descFactorial O : ℕ) : ℝ) / ((i.val + j.val - 2 * O + 1 : ℕ) : ℝ)
+      else 0 :=
+  Fit.monoIntegral_apply K O i j
+
+/-- **monomial_integral_psd**: the quadratic form of `monomial_integral<K,O>` is
+    `∫₀¹ (Σᵢ dᵢ (xⁱ)^{(O)})² dx`, hence positive semidefinite (the hypothesis `hM` of
+    `cost_block_posdef`), and the matrix is symmetric (`hMs`) -/
+theorem monomial_integral_psd (K O : ℕ) (d : Fin (K + 1) → ℝ) :
+    Fit.Kkt.quad (Matrix.of (fun i j : Fin (K + 1) => (Fit.monoIntegral (α := ℝ) K O) i j)) d
+      = ∫ x in (0 : ℝ)..1, (∑ i : Fin (K + 1), d i * (derivative^[O] (X ^ i.val : ℝ[X])).eval x) ^ 2 ∧
+    0 ≤ Fit.Kkt.quad (Matrix.of (fun i j : Fin (K + 1) => (Fit.monoIntegral (α := ℝ) K O) i j)) d ∧
+    (Matrix.of (fun i j : Fin (K + 1) => (Fit.monoIntegral (α := ℝ) K O) i j)).transpose
+      = Matrix.of (fun i j : Fin (K + 1) => (Fit.monoIntegral (α := ℝ) K O) i j) :=
+  ⟨Fit.quad_monoIntegral K O d, Fit.monoIntegral_psd K O d,
+    by ext i j; exact Fit.monoIntegral_symm K O j i⟩
+
+/-- the statement under its historical name (formerly open) … -/
 def monomial_integral_psd_statement : Prop :=
   ∀ (K O : ℕ) (d : Fin (K + 1) → ℝ),
     0 ≤ Fit.Kkt.quad (Matrix.of (fun i j : Fin (K + 1) => (Fit.monoIntegral (α := ℝ) K O) i j)) d
+
+/-- … now a theorem -/
+theorem monomial_integral_psd_statement_holds : monomial_integral_psd_statement :=
+  fun K O d => (monomial_integral_psd K O d).2.1
+
+/-- the code's cost block of a segment, `dt^{1−2D}·BᵀMB + 1e-6·I` with `M = monomial_integral<K,O>`
+    and `B` the Bernstein→monomial matrix, is symmetric positive definite for every `K`, `O`, and
+    every factor `fac ≥ 0` (`cost_block_posdef` with its hypotheses discharged) -/
+theorem cost_block_posdef_monomial (K O : ℕ) (B : Matrix (Fin (K + 1)) (Fin (K + 1)) ℝ) (fac ε : ℝ)
+    (hfac : 0 ≤ fac) (hε : 0 < ε) (d : Fin (K + 1) → ℝ) (hd : d ≠ 0) :
+    0 < Fit.Kkt.quad (fac • (B.transpose *
+        Matrix.of (fun i j : Fin (K + 1) => (Fit.monoIntegral (α := ℝ) K O) i j) * B)
+        + ε • (1 : Matrix (Fin (K + 1)) (Fin (K + 1)) ℝ)) d :=
+  (cost_block_posdef _ B (fun d => (monomial_integral_psd K O d).2.1) (monomial_integral_psd K O d).2.2
+    fac ε hfac hε).2 d hd
 
 /-! ### first / last cumulative coefficient and rest at the ends -/
 
@@ -283,14 +325,31 @@ theorem dubins_csc_reaches_target (target : Vec ℝ 4) (R len : ℝ) (hR : 0 < R
     Dubins.idealEnd (Dubins.emit R ⟨(c1, .S, c3), Dubins.csc target R c1 c3, len⟩) = Dubins.poseC target :=
   Dubins.csc_reaches_target target R len hR hunit c1 c3 h1 h3 hfeas
 
-/-- NOT proved: the same for the CCC words (RLR, LRL; feasible for `0 < d13 ≤ 4R`); the check audits
-    it by independent forward integration of the returned word and by the curve's own end pose -/
+/-- **dubins_reaches_target, CCC words** (RLR, LRL).  The three arcs emitted for
+    `dubins_ccc(target, R, c13, c2)`, traversed as exact unit-speed arcs from the identity pose, end
+    exactly at the target pose whenever the word is feasible: the centres of the first and third
+    circle are distinct and at most `4R` apart — the boundary `d13 = 4R` (middle arc exactly `π`)
+    included, and every wrap of `dubins_angle` accounted for.  The middle arc is the long one,
+    `a₂ = π + 2α` with `cos α = d13/(4R)` (`A_12_32 = −Ā²`). -/
+theorem dubins_ccc_reaches_target (target : Vec ℝ 4) (R len : ℝ) (hR : 0 < R)
+    (hunit : target 2 ^ 2 + target 3 ^ 2 = 1) (c13 c2 : Dubins.Seg)
+    (hw : (c13 = .R ∧ c2 = .L) ∨ (c13 = .L ∧ c2 = .R)) (hfeas : Dubins.CccFeasible target R c13) :
+    Dubins.idealEnd (Dubins.emit R ⟨(c13, c2, c13), Dubins.ccc target R c13 c2, len⟩) = Dubins.poseC target :=
+  Dubins.ccc_reaches_target target R len hR hunit c13 c2 hw hfeas
+
+/-- the statement under its historical name (formerly open) … -/
 def dubins_ccc_reaches_target_statement : Prop :=
   ∀ (target : Vec ℝ 4) (R len : ℝ), 0 < R → target 2 ^ 2 + target 3 ^ 2 = 1 →
     ∀ (c13 c2 : Dubins.Seg), (c13 = .R ∧ c2 = .L) ∨ (c13 = .L ∧ c2 = .R) →
       (let d13 := Dubins.norm2 (vsub (SE2.act target (mk2 0 (Dubins.sideR c13 R))) (mk2 0 (Dubins.sideR c13 R)))
        0 < d13 ∧ d13 ≤ 4 * R) →
       Dubins.idealEnd (Dubins.emit R ⟨(c13, c2, c13), Dubins.ccc target R c13 c2, len⟩) = Dubins.poseC target
+
+/-- … now a theorem, exactly as it was posed -/
+theorem dubins_ccc_reaches_target_statement_holds : dubins_ccc_reaches_target_statement := by
+  intro target R len hR hunit c13 c2 hw hf
+  refine dubins_ccc_reaches_target target R len hR hunit c13 c2 hw ?_
+  simpa [Dubins.CccFeasible] using hf
 
 /-! ## 4. `fit_bspline` -/
 
@@ -530,6 +589,20 @@ example : Dubins.CscFeasible (mk4 3 0 0 1) 1 .L .L := by
         vsum, mk2, mk4, mat2, Vec.of, Mat.of, Scalar.sqrt]
     rw [h]; norm_num
   · intro h; exact absurd rfl h
+
+/-- RLR / LRL towards the pose 3 ahead with the same heading are feasible (`|C1C3| = 3 ≤ 4R`, `R = 1`) -/
+example : Dubins.CccFeasible (mk4 3 0 0 1) 1 .R ∧ Dubins.CccFeasible (mk4 3 0 0 1) 1 .L := by
+  have h : ∀ c, Dubins.norm2 (vsub (SE2.act (mk4 (3 : ℝ) 0 0 1) (mk2 (nat 0) (Dubins.sideR c 1)))
+      (mk2 (nat 0) (Dubins.sideR c 1))) = 3 := by
+    intro c
+    simp [Dubins.norm2, SE2.act, SE2.so2, SE2.r2, SO2.act, SO2.matrix, vsub, vadd, mulVec,
+      vsum, mk2, mk4, mat2, Vec.of, Mat.of, Scalar.sqrt]
+  constructor <;> (unfold Dubins.CccFeasible; rw [h]; norm_num)
+
+/-- the Gram identity on a concrete entry: `monomial_integral<3,1>()[2][3] = 2·3/(2+3−2+1) = 3/2` -/
+example : (Fit.monoIntegral (α := ℝ) 3 1) 2 3 = 3 / 2 := by
+  rw [monomial_integral_entries]
+  norm_num [Nat.descFactorial]
 
 /-- a one-segment chain: from 0 to 0.1 in time 1 (coefficients 0.05, 0.05), `t_max = 0.1` -/
 example : Reparam.Chain [⟨1, 1 / 20, 1 / 20, 0⟩] (1 / 10) := by
